@@ -46,7 +46,9 @@ ProbeStrs == << "a eq 1",
                 "status in ('open', 'closed', 'on hold', 'open') or id in (3, 1, 2, 3, 1)",
                 \* a syntax error AT a slash (a lexer that switches mode after "/" must switch back), then inputs that
                 \* begin with a keyword
-                "(a)/b eq 1", "a/", "null eq x", "not a", "true" >>
+                "(a)/b eq 1", "a/", "null eq x", "not a", "true",
+                \* many unclosed and many unopened parentheses (a nesting counter kept on the instance must start afresh)
+                "((((((((((((((((((((((((((((((((((((((((((((((((((((((((((((((((((((((((((((((((((((((((((((((((((((((((((((((((((((((((((((((((((((((((((((a", "a))))))))))))))))))))))))))))))))))))))))))))))))))))))))))))))))))))))))))))))))))))))))))))))))))))))))))))))))))))))))))))))))))))))))))))", "(a eq 1) and (b in (1, 2))", "a/b/c gt 1 and a/b/c lt 5" >>
 NProbes == Len(ProbeStrs)
 ProbeCps == [i \in 1..NProbes |-> StrCps(ProbeStrs[i])]
 Outcome == [i \in 1..NProbes |-> ParseText(ProbeCps[i])]
